@@ -24,11 +24,17 @@ class Case:
     # order of `formats`, which then is the kernel's parameter order - not necessarily target first.
     # False: through make_problem, which orders them by appearance in the assignment.
     direct_problem: bool = False
+    # name -> list of level-order prefixes stored with an empty segment beneath (taco.build `hollow`)
+    hollow: dict = None
+
+    def hollow_of(self, name):
+        return tuple(tuple(h) for h in (self.hollow or {}).get(name, ()))
 
     def key(self):
         return (self.assignment, tuple(sorted(self.formats.items())), tuple(sorted(self.sizes.items())),
                 tuple((n, tuple(sorted(v.items()))) for n, v in sorted(self.inputs.items())), self.capacity,
-                tuple(self.formats) if self.direct_problem else None)
+                tuple(self.formats) if self.direct_problem else None,
+                tuple(sorted((n, tuple(map(tuple, hs))) for n, hs in (self.hollow or {}).items())) or None)
 
     def describe(self):
         return {
@@ -39,6 +45,7 @@ class Case:
             "initial_capacity": self.capacity,
             "origin": self.origin,
             **({"parameter_order": list(self.formats)} if self.direct_problem else {}),
+            **({"stored_prefixes_with_empty_segment_below": {n: [list(h) for h in hs] for n, hs in self.hollow.items()}} if self.hollow else {}),
         }
 
 
@@ -51,8 +58,9 @@ def case_from_description(d) -> Case:
     direct = "parameter_order" in d
     if direct:
         formats = {n: formats[n] for n in d["parameter_order"]}
+    hollow = {n: [tuple(h) for h in hs] for n, hs in d.get("stored_prefixes_with_empty_segment_below", {}).items()} or None
     return Case(d["assignment"], formats, dict(d["index_sizes"]), inputs, d.get("initial_capacity"),
-                d.get("origin", "replay"), target, tree, direct)
+                d.get("origin", "replay"), target, tree, direct, hollow)
 
 
 # --------------------------------------------------------------------------- tensora front door
@@ -182,7 +190,7 @@ def stored_full(case: Case):
     out = {}
     for name, entries in case.inputs.items():
         modes, ordering = taco.parse_fmt(case.formats[name])
-        ind, vals = taco.build(entries, dims[name], modes, ordering)
+        ind, vals = taco.build(entries, dims[name], modes, ordering, hollow=case.hollow_of(name))
         out[name] = taco.validate(dims[name], modes, ordering, ind, vals)
     return out
 
@@ -201,7 +209,7 @@ def setup_heap(case: Case, problem):
             out = heap.make_tensor(name, "output", dims[name], modes, ordering)
             structs.append(out)
         else:
-            ind, vals = taco.build(case.inputs[name], dims[name], modes, ordering)
+            ind, vals = taco.build(case.inputs[name], dims[name], modes, ordering, hollow=case.hollow_of(name))
             s = heap.make_tensor(name, "input", dims[name], modes, ordering, ind, vals)
             structs.append(s)
             ins.append(s)
@@ -212,6 +220,8 @@ def step_budget(case: Case, fn=None):
     vol = 1
     for s in case.sizes.values():
         vol *= max(s, 1)
+    if case.origin == "huge-dimensions":
+        vol = 1  # work must follow the stored entries there (a handful), never the dimension sizes
     nnz = sum(len(v) for v in case.inputs.values())
     return 200_000 + 2_000 * (vol + nnz)
 
@@ -286,7 +296,7 @@ def jit_inputs(case: Case):
     out = {}
     for name, entries in case.inputs.items():
         modes, ordering = taco.parse_fmt(case.formats[name])
-        out[name] = taco.to_tensor(entries, dims[name], modes, ordering)
+        out[name] = taco.to_tensor(entries, dims[name], modes, ordering, hollow=case.hollow_of(name))
     return out
 
 
@@ -317,6 +327,33 @@ def compare_values(decoded: dict, ref: dict):
 
 
 DIRECT_PROBLEM_P = 0.12
+HOLLOW_P = 0.1
+
+
+def hollow_prefixes(rng, formats, dims, inputs):
+    """For some inputs: 1-2 level-order prefixes ending at a compressed level directly above another
+    compressed level, not a prefix of any stored entry - stored coordinates with nothing beneath."""
+    out = {}
+    for name, entries in inputs.items():
+        modes, ordering = taco.parse_fmt(formats[name])
+        spots = [l for l in range(len(modes) - 1) if modes[l] == "s" and modes[l + 1] == "s"]
+        if not spots or rng.random() < 0.4:
+            continue
+        lvl_dims = [dims[name][ordering[l]] for l in range(len(modes))]
+        if any(d == 0 for d in lvl_dims):
+            continue
+        used = {tuple(c[ordering[l]] for l in range(len(modes))) for c in entries}
+        hs = []
+        for _ in range(rng.randint(1, 2)):
+            l = rng.choice(spots)
+            h = tuple(rng.randrange(lvl_dims[k]) for k in range(l + 1))
+            if any(u[: l + 1] == h for u in used) or h in hs:
+                continue
+            # every dense level above must be able to hold the prefix (always true); compressed levels above get the coordinate stored
+            hs.append(h)
+        if hs:
+            out[name] = hs
+    return out
 
 
 def build_case(rng, target, tree, formats=None, values=gen.DYADIC, capacity="random", origin="", sizes_pool=None):
@@ -331,6 +368,9 @@ def build_case(rng, target, tree, formats=None, values=gen.DYADIC, capacity="ran
     dims = gen.tensor_dims(target, tree, sizes)
     inputs = {n: gen.random_entries(rng, dims[n], values) for n in gen.tensors_of(tree)}
     cap = rng.choice(gen.CAPACITIES) if capacity == "random" else capacity
+    hollow = None
+    if rng.random() < HOLLOW_P:
+        hollow = hollow_prefixes(rng, ordered, dims, inputs) or None
     direct = False
     if len(ordered) > 1 and rng.random() < DIRECT_PROBLEM_P:
         # a Problem built directly: parameters in another order than make_problem would choose
@@ -338,7 +378,7 @@ def build_case(rng, target, tree, formats=None, values=gen.DYADIC, capacity="ran
         rng.shuffle(names)
         ordered = {n: ordered[n] for n in names}
         direct = True
-    return Case(gen.show_assignment(target, tree), ordered, sizes, inputs, cap, origin, target, tree, direct)
+    return Case(gen.show_assignment(target, tree), ordered, sizes, inputs, cap, origin, target, tree, direct, hollow)
 
 
 def curated_cases(rng, n_formats, n_inputs, include_broadcast=True, values=gen.DYADIC):
@@ -560,12 +600,12 @@ def small_shape_cases(rng, index, n_shards, draws=5, values=gen.DYADIC, out_mode
 # --------------------------------------------------------------------------- every output format
 
 
-OUTPUT_SHAPES = ["A(i,j,k) = B(i,j,k)", "A(i,j,k) = B(i,j,k) + C(i,j,k)", "A(i,j,k) = B(i,j,k) * C(i,j,k)", "A(i,j,k) = B(i,j) * c(k)",
+OUTPUT_SHAPES = ["A(i,j,k,l) = B(i,j,k,l)", "A(i,j,k,l) = B(i,j,k,l) + C(i,j,k,l)", "A(i,j,k) = B(i,j,k)", "A(i,j,k) = B(i,j,k) + C(i,j,k)", "A(i,j,k) = B(i,j,k) * C(i,j,k)", "A(i,j,k) = B(i,j) * c(k)",
                  "A(i,j,k) = B(i,j,l) * C(l,k)", "A(i,j) = B(i,j,k) * c(k)", "A(i,j) = B(i,j) + C(i,j)", "A(i,j) = B(i,k) * C(k,j)"]
 
 
 def output_exhaustive_cases(rng, index, n_shards, draws=3, values=gen.DYADIC):
-    """EVERY format of the output (all modes x all orderings: 48 for order 3, 8 for order 2) of a few
+    """EVERY format of the output (all modes x all orderings: 384 for order 4, 48 for order 3, 8 for order 2) of a few
     simple shapes, inputs all-compressed / all-dense / random, and input sets with empty slices and
     fibres at every level (so position arrays get entries for parents that store nothing)."""
     k = 0
@@ -638,3 +678,125 @@ def high_order_cases(rng, n, values=gen.DYADIC):
         target, tree = gen.parse(rng.choice(HIGH_ORDER_SHAPES))
         case = build_case(rng, target, tree, None, values, origin="high-order", sizes_pool=[1, 2, 2, 3])
         yield case
+
+
+# --------------------------------------------------------------------------- huge dimensions, few entries
+
+
+HUGE = [46341, 50000, 65536, 1 << 20, (1 << 31) - 1]
+
+
+def huge_dim_cases(rng, n, values=gen.DYADIC):
+    """Dimension sizes whose products leave the int32 range (46341^2 > 2^31, 65536^2 = 2^32) on tensors that
+    store only a handful of entries.  Every level that carries a huge dimension is compressed in every
+    operand and in the output - element counts then fit 32-bit index arithmetic comfortably, which is the
+    property's precondition - so a correct kernel never needs a product of dimensions.  Dense levels keep
+    small sizes."""
+    shapes = [t for t in gen.CURATED if "(" in t]
+    made = 0
+    tries = 0
+    while made < n and tries < n * 20:
+        tries += 1
+        target, tree = gen.parse(rng.choice(shapes))
+        idxs = []
+        for i in list(target[2]) + gen.indexes_of(tree):
+            if i not in idxs:
+                idxs.append(i)
+        if not 1 <= len(idxs) <= 3:
+            continue
+        orders = gen.tensor_orders(target, tree)
+
+        def terms(e):
+            """index sets of the additive terms of the expansion (a literal contributes no index)"""
+            if e[0] == "t":
+                return [set(e[2])]
+            if e[0] == "n":
+                return [set()]
+            l, r = terms(e[1]), terms(e[2])
+            if e[0] in "+-":
+                return l + r
+            return [a | b for a in l for b in r]
+
+        # a big index must be mentioned by every additive term (nothing is broadcast along it, no literal
+        # term): otherwise the RESULT would hold about as many entries as the dimension is long, which is
+        # outside the property's precondition (element counts fit 32-bit arithmetic) and not runnable
+        common = set(idxs)
+        for t_ in terms(tree):
+            common &= t_
+        candidates = [i for i in idxs if i in common]
+        if not candidates:
+            continue
+        big = {i for i in candidates if rng.random() < 0.7} or {candidates[0]}
+        refs = dict(gen.tensors_of(tree))
+        if any(len(r) > 1 for r in refs.values()):
+            continue  # a tensor used with two index lists forces equal sizes; keep it simple
+        refs = {nme: r[0] for nme, r in refs.items()}
+        refs[target[1]] = target[2]
+        formats = {}
+        for nme, idx in refs.items():
+            o = len(idx)
+            ordering = list(range(o))
+            if o > 1 and rng.random() < 0.3:
+                rng.shuffle(ordering)
+            modes = tuple("s" if idx[ordering[l]] in big else rng.choice("ds") for l in range(o))
+            formats[nme] = taco.fmt_text(modes, tuple(ordering))
+        sizes = {i: (rng.choice(HUGE) if i in big else rng.choice([1, 2, 3])) for i in idxs}
+        ordered = {target[1]: formats[target[1]]}
+        for nme in gen.tensors_of(tree):
+            ordered[nme] = formats[nme]
+        dims = gen.tensor_dims(target, tree, sizes)
+        inputs = {}
+        for nme in gen.tensors_of(tree):
+            ent = {}
+            for _ in range(rng.randint(0, 4)):
+                c = tuple(rng.choice([0, d - 1, d // 2, max(0, d - 2), min(d - 1, 1)]) for d in dims[nme])
+                ent[c] = rng.choice(values)
+            inputs[nme] = ent
+        made += 1
+        yield Case(gen.show_assignment(target, tree), ordered, sizes, inputs, rng.choice(gen.CAPACITIES), "huge-dimensions", target, tree)
+
+
+# --------------------------------------------------------------------------- many operands, few alternatives
+
+
+def wide_cases(rng, n, values=gen.DYADIC):
+    """6..10 operands co-iterated in one loop, arranged so that the merge lattice stays small (long
+    products, at most three additive alternatives): anything that folds or pairs up a LIST of operands
+    (min/max of cursors, conjunctions of conditions) sees lists of 6 and more here; the bounded-exhaustive
+    small shapes stop at five leaves."""
+    target = ("t", "a", ("i",))
+    for _ in range(n):
+        k = rng.randint(6, 10)
+        names = [f"v{j}" for j in range(k)]
+        rng.shuffle(names)
+        leaves = [("t", nm, ("i",)) for nm in names]
+
+        def prod(ls):
+            e = ls[0]
+            for x in ls[1:]:
+                e = ("*", e, x)
+            return e
+
+        style = rng.choice(["prod+1", "prod+prod", "prod+1+1", "sum-in-prod", "1+prod"])
+        if style == "prod+1":
+            tree = ("+", prod(leaves[:-1]), leaves[-1])
+        elif style == "1+prod":
+            tree = ("+", leaves[0], prod(leaves[1:]))
+        elif style == "prod+prod":
+            cut = rng.randint(2, k - 2)
+            tree = (rng.choice("+-"), prod(leaves[:cut]), prod(leaves[cut:]))
+        elif style == "prod+1+1":
+            tree = ("+", ("+", prod(leaves[:-2]), leaves[-2]), leaves[-1])
+        else:
+            tree = prod([leaves[0], ("+", leaves[1], leaves[2])] + leaves[3:])
+        fm = {"a": rng.choice(["s", "s", "d"])}
+        for nm in gen.tensors_of(tree):
+            fm[nm] = "s" if rng.random() < 0.9 else "d"
+        size = 8
+        for d in range(3):
+            inputs = {}
+            for nm in gen.tensors_of(tree):
+                lo = rng.choice([0, 0, 1, 2])
+                hi = rng.randint(4, size)
+                inputs[nm] = {(c,): rng.choice(values) for c in range(lo, hi) if rng.random() < 0.85}
+            yield Case(gen.show_assignment(target, tree), dict(fm), {"i": size}, inputs, rng.choice(gen.CAPACITIES), "wide", target, tree)
